@@ -107,6 +107,8 @@ class Variants:
             "vr_ext_scan_guard": probes.get("ext_scan_nonmapping", "AttributeError") != "AttributeError",
             "vr_detect_default": probes.get("bundle_without_objects", "KeyError") != "KeyError",
             "vr_d2s_ext_guard": probes.get("d2s_ext_nondict", "AttributeError") != "AttributeError",
+            "vr_toplevel_needs_slot": not probes.get("toplevel_without_slot", True),
+            "vr_ext_nonempty": not probes.get("empty_extensions", True),
         }
 
     def coq_variant(self):
